@@ -276,11 +276,19 @@ func decideRaces(solver *Solver, threads [][]raceEvent, label string, res *raceR
 				addEdge(i, j)
 			}
 		case "lock", "rlock":
-			i := lastBefore(j, func(k int) bool {
-				return (all[k].sync == "unlock" || all[k].sync == "runlock") && all[k].syncID == all[j].syncID
-			})
-			if i >= 0 && all[i].thread != all[j].thread {
-				addEdge(i, j)
+			// Go memory model: the n-th Unlock is synchronised before the return of a later (R)Lock;
+			// an RUnlock is synchronised before the return of the next Lock (not of another RLock)
+			u := lastBefore(j, func(k int) bool { return all[k].sync == "unlock" && all[k].syncID == all[j].syncID })
+			if u >= 0 && all[u].thread != all[j].thread {
+				addEdge(u, j)
+			}
+			if all[j].sync == "lock" {
+				for k := 0; k < n; k++ {
+					if all[k].sync == "runlock" && all[k].syncID == all[j].syncID && all[k].thread != all[j].thread &&
+						all[k].ord < all[j].ord && (u < 0 || all[k].ord > all[u].ord) {
+						addEdge(k, j)
+					}
+				}
 			}
 		}
 	}
